@@ -23,6 +23,20 @@ def slice_range(t):
     return None
 
 
+def _tcp_header_offset(t):
+    """40 (fixed IPv6 header) or (byte0 & 0x0f) * 4 (IPv4 IHL in 32-bit words)"""
+    t = T.strip(t)
+    k = T.fold_int(t)
+    if k is not None:
+        return k == 40
+    masks = [T.fold_int(x[3]) for x in T.walk(t) if x[0] == "binop" and x[1] == "BitAnd"]
+    byte0 = any(x[0] == "index" and T.fold_int(x[2]) == 0 for x in T.walk(t))
+    times4 = any((x[0] == "call" and x[1].endswith(("saturating_mul", "wrapping_mul", "checked_mul")) and any(T.fold_int(a) == 4 for a in x[2])) or
+                 (x[0] == "binop" and x[1].startswith("Mul") and 4 in (T.fold_int(x[2]), T.fold_int(x[3]))) or
+                 (x[0] == "binop" and x[1].startswith("Shl") and T.fold_int(x[3]) == 2) for x in T.walk(t))
+    return 0x0F in masks and byte0 and times4
+
+
 ROLE_RANGES = {(12, 16): "src_ip", (16, 20): "dst_ip", (8, 24): "src_ip", (24, 40): "dst_ip"}
 
 
@@ -63,10 +77,15 @@ def roles(t, depth=0):
                         base_ok = False
                 else:
                     base_ok = False
-            if base_ok and idx == [0, 1]:
-                return {"src_port"}
-            if base_ok and idx == [2, 3]:
-                return {"dst_port"}
+            if base_ok and idx in ([0, 1], [2, 3]):
+                # the slice the ports are read from must start at the TCP header: IHL*4 behind an IPv4 header, 40 behind an IPv6 header
+                starts = []
+                for e in arr[4]:
+                    b = slice_range(T.strip(e)[1])
+                    starts.append(b[1])
+                if not all(_tcp_header_offset(st) for st in starts):
+                    return {"other:ports-not-at-tcp-header(%s)" % T.pp(T.strip(starts[0]))[:40]}
+                return {"src_port"} if idx == [0, 1] else {"dst_port"}
         return {"other:be16"}
     if t[0] == "binop" and t[1] in ("BitXor", "BitOr", "BitAnd", "Add", "AddWithOverflow"):
         return roles(t[2], depth + 1) | roles(t[3], depth + 1)
